@@ -186,6 +186,9 @@ type Result struct {
 	Fatal       []string // engine-level failures (load errors, panics)
 }
 
+// EvidenceDir overrides where evidence and replay files are written (default <verif>/evidence).
+var EvidenceDir string
+
 var unsafeName = regexp.MustCompile(`[^A-Za-z0-9_.-]+`)
 
 // Finish prints the report, writes evidence and replay files, and returns the exit code.
@@ -209,7 +212,11 @@ func (r *Result) Finish(verifDir string, seed int) int {
 		return r.Obs[i].Key < r.Obs[j].Key
 	})
 
-	violDir := filepath.Join(verifDir, "evidence", "violations")
+	evDir := filepath.Join(verifDir, "evidence")
+	if EvidenceDir != "" {
+		evDir = EvidenceDir
+	}
+	violDir := filepath.Join(evDir, "violations")
 	os.MkdirAll(violDir, 0o755)
 	// remove stale replay files of this property
 	if old, _ := filepath.Glob(filepath.Join(violDir, r.Prop+"-*.txt")); old != nil {
@@ -321,7 +328,7 @@ func (r *Result) Finish(verifDir string, seed int) int {
 		ev.Assumptions = []string{}
 	}
 	b, _ := json.MarshalIndent(ev, "", " ")
-	evPath := filepath.Join(verifDir, "evidence", r.Prop+".json")
+	evPath := filepath.Join(evDir, r.Prop+".json")
 	if err := os.WriteFile(evPath, append(b, '\n'), 0o644); err != nil {
 		fmt.Printf("cannot write evidence: %v\n", err)
 		return 2
